@@ -2,13 +2,13 @@
 package c18
 
 import (
-	"time"
 	"encoding/json"
 	"fmt"
 	"regexp"
 	"regexp/syntax"
 	"strings"
 	"testing"
+	"time"
 	"unicode/utf8"
 
 	"github.com/jsightapi/jsight-schema-core/notations/jschema"
@@ -382,7 +382,13 @@ func watched(f func(Case) *ev.Verdict) func(Case) *ev.Verdict {
 		case v := <-done:
 			return v
 		case <-time.After(20 * time.Second):
-			return ev.V("no-answer-in-20s", "an operation on the regex schema %q did not return within 20 s", c.Text)
+			// (a busy machine is not a verdict: two more minutes before the case counts as stuck)
+			select {
+			case v := <-done:
+				return v
+			case <-time.After(120 * time.Second):
+				return ev.V("no-answer-in-140s", "an operation on the regex schema %q did not return within 140 s", c.Text)
+			}
 		}
 	}
 }
